@@ -16,7 +16,7 @@ TRUSTED = ["PyTorch's autograd engine implements the chain rule for the torch pr
            "forward-mode dual arithmetic = reverse-mode gradient contracted with the tangent (chain rule), for the model comparison"]
 ASSUMPTIONS = ["scalars are non-zero and positive under roots (|c|^(1/N) is not differentiable at 0; the scalar itself is a constant)"]
 
-HEADS = ["sum", "mean", "dot", "normsq", "norm", "var", "dist", "readme"]
+HEADS = ["sum", "mean", "dot", "normsq", "norm", "var", "dist", "readme", "var_marg", "mean_marg"]
 
 
 def gen_prog(rng, nleaves, depth, N, shape):
@@ -30,11 +30,15 @@ def gen_prog(rng, nleaves, depth, N, shape):
     if r < 0.85:
         c = rng.choice([2.0, -3.0, 0.5, -1.5, 3.0])
         return [rng.choice(["smul", "rsmul", "div", "sadd", "ssub"]), c, gen_prog(rng, nleaves, depth - 1, N, shape)]
+    if r < 0.93:
+        # a scalar that is itself computed from a compressed tensor (t - tn.mean(t), t * tn.sum(u), u / tn.normsq(u) ...)
+        return [rng.choice(["tsadd", "tsadd", "tsmul"]), rng.choice(["tsum", "tmean", "tnormsq"]), rng.choice([1.0, -1.0, 2.0, 0.5]),
+                gen_prog(rng, nleaves, max(depth - 2, 0), N, shape), gen_prog(rng, nleaves, depth - 1, N, shape)]
     return ["flip0", gen_prog(rng, nleaves, depth - 1, N, shape)]      # t[::-1 is unsupported] -> use slicing that keeps the shape: t[0:n]
 
 
 def cases(rng, tier):
-    n = {"quick": 160, "thorough": 2500, "search": 800}[tier]
+    n = {"quick": 450, "thorough": 2500, "search": 800}[tier]
     out = []
     for _ in range(n):
         N = rng.choice([1, 2, 2, 3])
@@ -66,6 +70,9 @@ def ev(tree, L, ops):
         return ops["neg"](ev(tree[1], L, ops))
     if t == "flip0":
         return ops["flip0"](ev(tree[1], L, ops))
+    if t in ("tsadd", "tsmul"):
+        c = tree[2] * ops[tree[1]](ev(tree[3], L, ops))
+        return ops["sadd" if t == "tsadd" else "smul"](c, ev(tree[4], L, ops))
     return ops[t](tree[1], ev(tree[2], L, ops))
 
 
@@ -73,6 +80,8 @@ COMP = {"add": lambda a, b: a + b, "sub": lambda a, b: a - b, "mul": lambda a, b
         "smul": lambda c, a: a * c, "rsmul": lambda c, a: c * a, "div": lambda c, a: a / c, "sadd": lambda c, a: a + c,
         "ssub": lambda c, a: a - c, "flip0": lambda a: a[0:a.shape[0]]}
 DENSE = dict(COMP)
+COMP.update({"tsum": lambda a: tn.sum(a), "tmean": lambda a: tn.mean(a), "tnormsq": lambda a: tn.normsq(a)})
+DENSE.update({"tsum": lambda x: x.sum(), "tmean": lambda x: x.mean(), "tnormsq": lambda x: (x * x).sum()})
 
 
 def head_comp(h, a, b):
@@ -90,6 +99,9 @@ def head_comp(h, a, b):
         return tn.var(a)
     if h == "dist":
         return tn.dist(a, b)
+    if h in ("var_marg", "mean_marg"):
+        ms = [torch.tensor([0.5 + ((7 * i + 3 * n) % 5) for i in range(sh)], dtype=torch.float64) for n, sh in enumerate(a.shape)]
+        return tn.var(a, marginals=ms) if h == "var_marg" else tn.mean(a, marginals=ms)
     k = max(1, a.shape[0] - 1)
     return tn.norm(a[:k] - a[-k:])
 
@@ -109,6 +121,13 @@ def head_dense(h, x, y):
         return ((x - x.mean()) ** 2).mean()
     if h == "dist":
         return torch.sqrt(((x - y) ** 2).sum())
+    if h in ("var_marg", "mean_marg"):
+        pdf = torch.ones((), dtype=torch.float64)
+        for n, sh in enumerate(x.shape):
+            m = torch.tensor([0.5 + ((7 * i + 3 * n) % 5) for i in range(sh)], dtype=torch.float64)
+            pdf = pdf[..., None] * (m / m.sum())
+        mu = (x * pdf).sum()
+        return mu if h == "mean_marg" else (pdf * (x - mu) ** 2).sum()
     k = max(1, x.shape[0] - 1)
     d = x[:k] - x[-k:]
     return torch.sqrt((d * d).sum())
@@ -136,7 +155,7 @@ def run_case(ctx, case):
     ctx.case((repr(case["prog"]), h, tuple(p.sig() for p in pts), repr(case["masks"])), True,
              {"program": case["prog"], "head": h, "leaves": [p.describe() for p in pts], "requires_grad": case["masks"]})
     ctx.count("head:" + h)
-    for k in ("smul", "rsmul", "div", "neg", "sub", "mul", "add", "sadd", "flip0"):
+    for k in ("smul", "rsmul", "div", "neg", "sub", "mul", "add", "sadd", "flip0", "tsadd", "tsmul"):
         if k in repr(case["prog"]):
             ctx.count("op:" + k)
     # ---- compressed path
@@ -180,6 +199,8 @@ def run_case(ctx, case):
             return
     if not use_model:
         return
+    if "'ts" in repr(case["prog"]):
+        ctx.count("model skipped: tensor-valued scalar in the program (oracle only)"); return
     # ---- model over dual numbers: tangents on the parameters, directional derivative of <C, cores(result)>
     rng = random.Random(case["seed"])
     tns3, params3 = build_leaves(case)
